@@ -189,6 +189,15 @@ fn one_input(ctx: &mut Ctx, index: u64, bytes: &[u8], class: &str, r: &mut Rng, 
             let res = results(|| ChunkReader::new(bytes, vec![size], Vec::new()), size % 16 == 1);
             check(ctx, format!("fixed chunk size {size}"), res);
         }
+        // transient interruptions throughout the stream, not just a few: one before every call / every other call
+        for (size, every) in [(1usize, 2u64), (2, 2), (3, 2), (1, 3), (7, 2)] {
+            if bytes.len() > 6000 && size < 3 {
+                continue;
+            }
+            ctx.count("periodic_interrupt_schedules_compared");
+            let res = results(|| ChunkReader::periodic(bytes, vec![size], every), false);
+            check(ctx, format!("chunk size {size} with an Interrupted before every {} call(s)", every - 1), res);
+        }
         if random_schedules {
             let k = if ctx.quick() { 20 } else { 60 };
             for j in 0..k {
